@@ -403,6 +403,8 @@ class Interp:
         # loops unrolled over a compile-time sequence / with statically
         # decided exits: (function qualname, line) -> largest trip count
         self.static_loops = {}
+        # seq -> (first argument, path atoms at the call) for the call log
+        self.call_info = {}
         self.handled = []  # (ExcInfo, handler function) caught raises
         self.comps = []  # data-dependent comprehensions
         self.fresh = itertools.count(1)
@@ -591,7 +593,32 @@ class Interp:
             v = self.binding_value(bl, ci, ci.module)
         finally:
             self.evaluating.discard(key)
+        if name == '__annotations__':
+            v = self._implicit_annotations(ci, bl, v)
         self.static_cache[key] = v
+        return v
+
+    def _implicit_annotations(self, ci, bl, v):
+        """Python stores the annotation of every annotated assignment of a
+        class body in the namespace's __annotations__ - also when the body
+        binds that name itself: annotated names from that statement on
+        (the statement included) are added to the dict it bound."""
+        if not (isinstance(v, Ref) and v.id in self.static_store):
+            return v
+        ob = self.static_store[v.id]
+        if not isinstance(ob, DictObj) or ob.more:
+            return v
+        start = bl[-1].node.lineno
+        items = list(ob.items)
+        for st in ci.node.body:
+            if isinstance(st, ast.AnnAssign) and \
+                    isinstance(st.target, ast.Name) and \
+                    st.lineno >= start and st.simple:
+                if not any(k == st.target.id for k, _ in items):
+                    items.append((st.target.id,
+                                  Sym('annotation',
+                                      ast.unparse(st.annotation))))
+        ob.items = tuple(items) if isinstance(ob.items, tuple) else items
         return v
 
     def class_attr(self, ci: ClassInfo, name):
@@ -690,6 +717,8 @@ class Interp:
         Effect._seq[0] += 1
         self.calls.append((fi.short, self.chain(), Effect._seq[0],
                            len(state.kn.atoms)))
+        self.call_info[Effect._seq[0]] = (args[0] if args else None,
+                                          tuple(state.kn.atoms))
         self.cur_module, self.cur_func = fi.module, fi
         try:
             frame = Frame(self, fi, fi.module, fi.owner, env)
@@ -738,6 +767,8 @@ class Interp:
             Effect._seq[0] += 1
             self.calls.append((fi.short + ' [summarised]', self.chain(),
                                Effect._seq[0], len(state.kn.atoms)))
+            self.call_info[Effect._seq[0]] = (args[0] if args else None,
+                                              tuple(state.kn.atoms))
             for et, why in raises:
                 n0 = len(self.pending)
                 self.raise_pending(state, et, node, why)
@@ -771,7 +802,12 @@ class Interp:
     def recursive_call(self, fi, args, kwargs, state, node):
         """A call that re-enters a function already being inlined: use the
         function's inductive summary (fixpoint computed by codec.py)."""
-        self.calls.append((fi.short + ' [recursive]', self.chain(), 0, 0))
+        Effect._seq[0] += 1
+        self.calls.append((fi.short + ' [recursive]', self.chain() +
+                           (fi.short,), Effect._seq[0],
+                           len(state.kn.atoms)))
+        self.call_info[Effect._seq[0]] = (args[0] if args else None,
+                                          tuple(state.kn.atoms))
         self.rec_hits.add(fi.qualname)
         self.rec_calls.append((fi, list(args), self.chain(), self.site(node),
                                state.kn.copy()))
@@ -1044,6 +1080,15 @@ class Interp:
             # list += iterable mutates in place
             self.models.list_extend(self, cur, rhs, state, st)
             return [Outcome('normal', state)]
+        if isinstance(cur, Sym) and isinstance(
+                st.op, (ast.Add, ast.Mult, ast.BitOr, ast.BitAnd,
+                        ast.BitXor, ast.Sub)):
+            t_ = state.kn.type_of(cur)
+            if (t_ is None or t_ & {'bytearray', 'list', 'dict', 'set'}) \
+                    and not T.is_const(cur):
+                # `x op= y` on a value that may be a mutable object works
+                # in place: the caller's object changes
+                self.effect('inplace-op', cur, type(st.op).__name__, st)
         v = self.binop(st.op, cur, rhs, state, st)
         self.assign(st.target, v, state, frame)
         return [Outcome('normal', state)]
@@ -1278,6 +1323,31 @@ class Interp:
             if cur is None:
                 break
         return self._loop_finish(st, cur, breaks, outs, frame, depth)
+
+    def instance_written_names(self):
+        """Attribute names some function of the package stores through an
+        object (x.name = ..., setattr(x, 'name', ...),
+        object.__setattr__(x, 'name', ...))."""
+        names = getattr(self.prog, '_inst_written', None)
+        if names is None:
+            names = set()
+            for fi in self.prog.functions.values():
+                for n in ast.walk(fi.node):
+                    if isinstance(n, ast.Attribute) and isinstance(
+                            n.ctx, (ast.Store, ast.Del)):
+                        names.add(n.attr)
+                    elif isinstance(n, ast.Call):
+                        f = n.func
+                        fn = f.id if isinstance(f, ast.Name) else (
+                            f.attr if isinstance(f, ast.Attribute) else '')
+                        if fn in ('setattr', '__setattr__', 'delattr',
+                                  '__delattr__'):
+                            for a in n.args[:3]:
+                                if isinstance(a, ast.Constant) and \
+                                        isinstance(a.value, str):
+                                    names.add(a.value)
+            self.prog._inst_written = names
+        return names
 
     def _note_static_loop(self, st, n):
         k = (self.cur_func.qualname if self.cur_func is not None else '?',
@@ -2043,6 +2113,16 @@ class Interp:
                 if name == '__class__':
                     return o.cls
                 v = self.class_attr(o.cls, name)
+                if v is not ABSENT and o.open and not isinstance(
+                        v, (FuncInfo, ClassInfo)) and not (
+                        name.startswith('__') and name.endswith('__')) \
+                        and name in self.instance_written_names():
+                    # a class-level default that some function of the
+                    # package also stores on instances: a caller-owned
+                    # object may carry its own value (left by an earlier
+                    # call)
+                    shadow = Sym('hasattr', Sym('obj', base.id), name)
+                    return self.join_value(shadow, Sym('field', name), v)
                 if v is ABSENT and o.open and not (
                         name.startswith('__') and name.endswith('__')):
                     # unknown extra attribute of a caller-owned object
